@@ -17,6 +17,7 @@
 package cdi
 
 import (
+	"bytes"
 	"encoding/json"
 	"fmt"
 	"os"
@@ -139,7 +140,7 @@ func (s *Spec) write(overwrite bool) error {
 		data, err = orderedyaml.Marshal(s.Spec)
 		data = append([]byte("---\n"), data...)
 	} else {
-		data, err = json.Marshal(s.Spec)
+		data, err = marshalJSON(s.Spec)
 	}
 	if err != nil {
 		return fmt.Errorf("failed to marshal Spec file: %w", err)
@@ -169,6 +170,26 @@ func (s *Spec) write(overwrite bool) error {
 	}
 
 	return err
+}
+
+// marshalJSON encodes the Spec as JSON. Characters which are valid in JSON
+// but which our YAML-based parser rejects or alters (DEL, C1 control
+// characters, U+FFFE and U+FFFF) are written as \u escapes. These can only
+// occur within JSON strings.
+func marshalJSON(raw *cdi.Spec) ([]byte, error) {
+	data, err := json.Marshal(raw)
+	if err != nil {
+		return nil, err
+	}
+	var buf bytes.Buffer
+	for _, r := range string(data) {
+		if r == 0x7f || (0x80 <= r && r <= 0x9f) || r == 0xfffe || r == 0xffff {
+			fmt.Fprintf(&buf, "\\u%04x", r)
+		} else {
+			buf.WriteRune(r)
+		}
+	}
+	return buf.Bytes(), nil
 }
 
 // GetVendor returns the vendor of this Spec.
